@@ -57,7 +57,7 @@ class Bank:
             self.writes.append((loc, value))
             if self.latchable:
                 self.snapshot = list(self.image) if value == 0xAA else None
-            return value
+            return (value ^ 0x01) if self.wrong_echo else value
         acc = self.access.get(loc, RO)
         if acc == RO:
             return None
